@@ -426,12 +426,10 @@ def find_crate(repo, name):
 def lean_chars(s):
     return cps(s)
 
-def gen_okkhor(repo):
-    item = "okkhor"
-    crate = find_crate(repo, "okkhor")
-    src = strip_comments(read(f"{crate}/src/patterns.rs"))
-    m = re.search(r'pub\(crate\) const PHONETIC_PATTERNS: &\[Pattern\] = &\[(.*)\];', src, re.S)
-    if not m: raise Fail(item, "PHONETIC_PATTERNS not found")
+def parse_pattern_table(item, src, const_name):
+    """the `&[Pattern]` constant `const_name` as {find: (rules, default)} (BTreeMap collect: last wins)"""
+    m = re.search(r'pub\(crate\) const ' + const_name + r': &\[Pattern\] = &\[(.*?)\n\];', src, re.S)
+    if not m: raise Fail(item, const_name + " not found")
     body = m.group(1)
     pats = []
     i = 0
@@ -489,6 +487,13 @@ def gen_okkhor(repo):
     # BTreeMap collect: last wins for duplicate `find`
     d = {}
     for f, r, dflt in pats: d[f] = (r, dflt)
+    return d
+
+def gen_okkhor(repo):
+    item = "okkhor"
+    crate = find_crate(repo, "okkhor")
+    src = strip_comments(read(f"{crate}/src/patterns.rs"))
+    d = parse_pattern_table(item, src, "PHONETIC_PATTERNS")
     psrc = strip_comments(read(f"{crate}/src/parser.rs"))
     m = re.search(r"lowercase_c,\s*((?:'[a-z]'\s*\|?\s*)+)\)", psrc)
     if not m: raise Fail(item, "conditional_lowercase set")
@@ -517,6 +522,60 @@ def gen_okkhor(repo):
     L.append("]")
     L.append("end Riti.Gen")
     return "OkkhorPatterns.lean", "\n".join(L) + "\n"
+
+def lean_str(s):
+    out = []
+    for c in s:
+        o = ord(c)
+        if c in '"\\': out.append("\\" + c)
+        elif 32 <= o < 127: out.append(c)
+        elif o <= 0xFFFF: out.append("\\u%04x" % o)
+        else: out.append(c)
+    return '"' + "".join(out) + '"'
+
+def gen_okkhorregex(repo):
+    """the regex side of the dictionary look-up: okkhor's REGEX_PATTERNS + the literals of convert_regex_into,
+    and riti's first-letter → dictionary-table map (src/phonetic/suggestion.rs)"""
+    item = "okkhorregex"
+    crate = find_crate(repo, "okkhor")
+    src = strip_comments(read(f"{crate}/src/regex_patterns.rs"))
+    d = parse_pattern_table(item, src, "REGEX_PATTERNS")
+    body = fn_body(src, r'pub fn convert_regex_into\s*\([^{]*\{', item)
+    m = re.search(r'const EXTRA: &str = ' + STR + ';', body)
+    if not m: raise Fail(item, "EXTRA literal")
+    extra = unescape_rust(m.group(1), item)
+    # the shape of the loop the model transcribes
+    for needle, why in ((r"is_ascii_punctuation\(\)", "punctuation filter"), (r"to_ascii_lowercase\(\)", "lower-casing"), (r"output\.push\('\^'\)", "leading ^"),
+                        (r"output\.push\('\$'\)", "trailing $"), (r"output\.push_str\(EXTRA\)", "EXTRA after every pattern")):
+        if not re.search(needle, body): raise Fail(item, "convert_regex_into: " + why + " not found")
+    # riti's table
+    rs = strip_comments(read(f"{repo}/src/phonetic/suggestion.rs"))
+    m = re.search(r'let table: \[\(&str, &\[&str\]\); (\d+)\] = \[(.*?)\n\s*\];', rs, re.S)
+    if not m: raise Fail(item, "first-letter table in PhoneticSuggestion::new")
+    rows = re.findall(r'\(\s*' + STR + r',\s*&\[(.*?)\]\s*\)', m.group(2), re.S)
+    if len(rows) != int(m.group(1)): raise Fail(item, "first-letter table: row count")
+    table = [(unescape_rust(k, item), [unescape_rust(x, item) for x in re.findall(STR, v)]) for k, v in rows]
+    # how the first letter is taken and how the words are filtered
+    sb = fn_body(rs, r'fn include_from_dictionary\s*\([^{]*\{', item) if re.search(r'fn include_from_dictionary', rs) else rs
+    for needle, why in ((r"word\.get\(0\.\.1\)", "first byte of the word selects the tables"), (r"rgx\.is_match\(", "is_match filter"), (r"convert_regex_into\(word", "regex built from the word")):
+        if not re.search(needle, rs): raise Fail(item, "dictionary look-up: " + why + " not found")
+    L = ["/- GENERATED by tools/translate.py from okkhor's src/regex_patterns.rs and riti's src/phonetic/suggestion.rs — do not edit -/",
+         "import RitiModel.Gen.OkkhorPatterns",
+         "namespace Riti.Gen",
+         "/-- (find, rules (conditions, replacement), default replacement); strings, converted with `.toList` by the model -/",
+         "def okkhorRegexPatterns : List (String × List (List OkMatch × String) × String) := ["]
+    prow = []
+    for f in sorted(d):
+        r, dflt = d[f]
+        rsx = "[" + ", ".join("([" + ", ".join(ms) + "], " + lean_str(rep) + ")" for ms, rep in r) + "]"
+        prow.append(f"  ({lean_str(f)}, {rsx}, {lean_str(dflt)})")
+    L.append(",\n".join(prow)); L.append("]")
+    L.append(f"def okkhorRegexExtra : String := {lean_str(extra)}")
+    L.append("/-- first typed letter → names of the dictionary tables searched, in order -/")
+    L.append("def phoneticTables : List (String × List String) := [")
+    L.append(",\n".join(f"  ({lean_str(k)}, [{', '.join(lean_str(x) for x in v)}])" for k, v in table)); L.append("]")
+    L.append("end Riti.Gen")
+    return "OkkhorRegex.lean", "\n".join(L) + "\n"
 
 def gen_panicsites(repo):
     """whether the two `Regex::new(..)` calls on the suggestion paths tolerate a compile failure"""
@@ -626,7 +685,7 @@ def main():
         if r2: outs.append(r2)
     else:
         failed.append(("layoutkeys", "depends on keycodes"))
-    for item, f in (("charclasses", gen_charclasses), ("rankcmp", gen_rankcmp), ("okkhor", gen_okkhor), ("panicsites", gen_panicsites), ("logicconsts", gen_logicconsts)):
+    for item, f in (("charclasses", gen_charclasses), ("rankcmp", gen_rankcmp), ("okkhor", gen_okkhor), ("okkhorregex", gen_okkhorregex), ("panicsites", gen_panicsites), ("logicconsts", gen_logicconsts)):
         r = run(item, lambda: f(a.repo))
         if r: outs.append(r)
     # the Bijoy encoder tables of the pinned poriborton crate (tools/gen_bijoy.py)
